@@ -30,7 +30,11 @@ RULE = (
     "reader bounds, contiguity of non-empty iterator intervals, excerpt predicates. "
     "Non-trivial: n not a multiple of (chunk-overlap), or n<chunk, or odd overlap, or a file "
     "shorter than the chunk length, or a one-chunk batch, or excerpts that truncate. Cases of an "
-    "enumeration are distinct by construction; distinctness is nevertheless measured by hashing.")
+    "enumeration are distinct by construction; distinctness is nevertheless measured by hashing."
+    ' Later additions: counts and sizes as NumPy integers of every width, n-D excerpts, readers d'
+    'erived by channel selection / arithmetic, fractional samples per chunk on sparse 30-minute f'
+    'iles, the same file name in several folders, a .cbin opened by path next to similarly named '
+    'recordings, more threads than CPUs.')
 ASSUMPTIONS = ['mtscomp as codec for the compressed reader']
 
 
